@@ -619,6 +619,11 @@ func (api *DatabaseAPI) handleInsert(opID []byte, key string, data []byte) {
 	}
 
 	acc := r.GetAccessor(r)
+	if acc == nil {
+		// Records without an accessor (eg. wrapped non-JSON or empty data) cannot be inserted into.
+		api.send(opID, dbMsgTypeError, "inserting values is not supported for this record: no accessor available", nil)
+		return
+	}
 
 	result := gjson.ParseBytes(data)
 	anythingPresent := false
